@@ -447,7 +447,7 @@ func native(outPath string) {
 		}
 	}
 	// string conversions
-	for _, s := range []string{"", "a", "héllo", "日本", "ab\x00c"} {
+	for _, s := range []string{"", "a", "héllo", "日本", "ab\x00c", "\xff", "a\xffb", "\xc3", "ab\xc3", "\xe6\x97", "x\xe6\x97y", "\x80\x81", "é\xff", "\xed\xa0\x80", "\xf4\x90\x80\x80", "ok\xfe\xff"} {
 		sum.Cases++
 		e := newEnv()
 		e.Define("s", s)
